@@ -26,6 +26,9 @@ def scale(  # pylint: disable=dangerous-default-value  # always replaced by stat
     """
 
     data = numpy.array(data)
+    if data.dtype.kind in "iub":
+        # Integer arithmetic would wrap around when squaring.
+        data = data.astype(float)
 
     if "ddof" not in _state:
         _state["ddof"] = ddof
